@@ -33,11 +33,20 @@ type ATTx struct {
 // case 2. not need flush undolog, is XA mode, do local transaction commit
 // case 3. need run AT transaction
 func (tx *ATTx) Commit() error {
+	// the local transaction is over either way: the connection is in autocommit mode again
+	defer tx.resetAutoCommit()
 	tx.tx.beforeCommit()
 	return tx.commitOnAT()
 }
 
+func (tx *ATTx) resetAutoCommit() {
+	if tx.tx.conn != nil {
+		tx.tx.conn.autoCommit = true
+	}
+}
+
 func (tx *ATTx) Rollback() error {
+	defer tx.resetAutoCommit()
 	err := tx.tx.Rollback()
 	if err != nil {
 
